@@ -32,10 +32,60 @@ def run(c):
     for i, (cs, conc) in enumerate(cfgs):
         dkvlib.replay(c, cs, n, 90, c.seed * 100 + 70 + i, "Dkv files replay MemCap=%d L0=%d" % (cs["MemCap"], cs["L0Trigger"]),
                       conc=conc, check_restore=True)
+    shared_tables_arm(c)
     c.assumptions += ["garbage collection is forced (runtime.GC x3) at the model's GcRun steps; a late or missing collection is always allowed",
                       "same-process re-opening waits for the replaced instance's queued background work (the instance is never closed by the code)",
-                      "neighbour (NeedsTable) fault patterns are exercised at cluster level, not here"]
+                      "NeedsTable fault patterns (errors, time-outs) are not injected; neighbours answer through the real OperatorPartition / HandleNeedsTable"]
 
 
 def replay(c, path):
     dkvlib.replay_file(c, path)
+
+
+# ---------------------------------------------------------------- tables shared by operators after a rescale ----
+def shared_tables_arm(c):
+    """C09 at operator level: after a rescale several operators refer to the same table files. One of them compacts
+    the shared table away and drops the restored checkpoint in a retention round; garbage collection (forced by the
+    harness) then runs that table object's cleanup, which asks the neighbours (real OperatorPartition /
+    HandleNeedsTable). Every operator must still read all of its state, also after one more checkpoint + restore.
+    Scenarios are written in Rescale.tla's actions and elaborated by TLC (c06's scenario DSL)."""
+    import c06
+    q = c.tier == "quick"
+    scns = []
+    shapes = [(1, 3), (1, 2), (2, 3)] + ([] if q else [(1, 4), (2, 4), (3, 4), (2, 1), (3, 2)])
+    for count in ((3, 6, 256) if q else (3, 4, 6, 8, 256, 40000)):
+        for (m, n) in shapes:
+            if max(m, n) > count:
+                continue
+            # every non-empty set of new operators compacts the shared table away (the others keep needing it)
+            for mask in range(1, 2 ** n):
+                who = [o for o in range(1, n + 1) if mask >> (o - 1) & 1]
+                grp = c06.spread(count, 3)
+                s = c06.Scn(count, grp, m, "major")
+                for k in (1, 2, 3):
+                    s.put(k)
+                for o in range(1, m + 1):
+                    if s.keys_of(o):
+                        s.put_flush(s.keys_of(o)[0])
+                        s.put_flush(s.keys_of(o)[0])      # second L0 table: compacted into one table covering the operator's range
+                s.ckpt(list(range(1, m + 1)))
+                s.deploy(n, "major")
+                if any(not s.keys_of(o) for o in who):
+                    continue
+                for o in who:
+                    s.put_flush(s.keys_of(o)[0])
+                    s.put_flush(s.keys_of(o)[0])          # operator o compacts the shared table away
+                s.ckpt(list(range(n, 0, -1)))
+                s.resume()                                # every operator drops the restored checkpoint; GC; read back
+                s.put(s.keys_of(who[0])[0])               # (the other operators' state stays in the shared tables only)
+                s.ckpt(list(range(1, n + 1)))
+                s.resume()
+                scns.append(s.finish())
+    behs, results = c06.elaborate(c, scns, "shared tables", invariants=c06.INVS)
+    for r in results:
+        if r.violated or r.error:
+            c.errors.append("a shared-table scenario violates %s in the model (%s)\n%s" % (r.violated, r.error, r.out[-1500:]))
+    behs = [b for b in behs if b is not None]
+    payload = dict(property="C09", seed=c.seed, config=dict(MemSize=4096, Chunk=15, GC=True), behaviours=behs)
+    res = vlib.run_harness("rescale", payload, timeout=3000)
+    c.add_harness(res, payload, "rescaled operators sharing tables: compaction + retention + forced GC + read-back (%d scenarios)" % len(behs))
